@@ -34,7 +34,7 @@ def plan(tier, seed):
     i = 100
     n = S(tier, 200, 2000)
     for r in range(n):
-        cases.append(dict(lane='matrix', K=int(rng.integers(1, 7)), lead=pick([[], [4]]), dtype=pick(['float', 'int', 'ties', 'uint8', 'uint16', 'bool', 'int8', 'float-neg', 'float-neg', 'float-huge']), rs=[seed, 17, i])); i += 1
+        cases.append(dict(lane='matrix', K=int(rng.integers(1, 7)), lead=pick([[], [4], [2, 3], [3, 3]]), dtype=pick(['float', 'int', 'ties', 'uint8', 'uint16', 'bool', 'int8', 'float-neg', 'float-neg', 'float-huge']), rs=[seed, 17, i])); i += 1
     for r in range(n):
         refk = pick(['onehot-ish', 'continuous', 'soft', 'similar', 'int8-binary', 'bool-binary', 'quiet', 'quiet32', 'signed', 'antipodal'])
         cases.append(dict(lane='field', K=int(rng.integers(1, 7)), F=int(pick([1, 3, 5, 9, 33, 65, 129, 257])), T=int(rng.integers(2, 40)) if 'binary' not in refk else int(pick([60, 400, 1000])),
@@ -61,6 +61,10 @@ def check_optimal(R, sm, info):
         if not instr.is_library_exception(e):
             raise
         R.fail('C15.optimal', 'optimal/raised', f'{type(e).__name__}: {str(e)[:100]}', **info)
+        return None
+    want = (K, *sm.shape[:-2])
+    if np.shape(mo) != want or np.shape(mg) != want:
+        R.fail('C15.optimal', 'optimal/shape', f'mapping of shape {np.shape(mo)} / {np.shape(mg)} for a score matrix stack {sm.shape} (documented: {want})', **info)
         return None
     if not (conds.is_perm_columns(mo) and conds.is_perm_columns(mg)):
         R.fail('C15.optimal', 'optimal/not-a-permutation', 'mapping is not a permutation', **info)
